@@ -111,6 +111,22 @@ def gen_cases(rng, tier, scale):
             else:
                 items = [_t('raw', True, quad=True), _x('\n' + wch + 'r' + wch + '\n'), _t('/raw', True, quad=True), _x(wch)]
             cases.append(rcase(f'uw{j4}_{shape}', _src(items), {'t': True}, partials={'p': 'P'}, entry=0, kind='whole', s=wch, exp=_exp(items), tags=['unicode-whitespace']))
+    # an indented tag alone on its line written with a LEADING ~ after non-blank text: the ~ eats the line break and the
+    # indentation, and nothing of the text before
+    j5 = 0
+    for pre_txt in ('abcdef\n', 'é日本\n\n', 'x y\n'):
+        for ind in ('  ', '\t', ' \t '):
+            for body, cap, out_, extra in (('#if t', True, '', [_x('\nx\n'), _t('/if', True), _x('\n')]), ('> p', True, 'P', [_x('\nz')]),
+                                          ('v', False, 'V', [_x('\nz')]), ('raw', True, '', [_x('\nr\n'), _t('/raw', True, quad=True), _x('\n')])):
+                quad = body == 'raw'
+                items = [_x(pre_txt + ind), _t(body, cap, True, False, out_, quad=quad, partial=body.startswith('>'))] + extra
+                cases.append(rcase(f'lt{j5}', _src(items), {'t': True, 'v': 'V'}, partials={'p': 'P'}, entry=0, kind='whole', s=' ' + pre_txt, exp=_exp(items), tags=['leading-tilde-indented']))
+                j5 += 1
+    # closing tag variant: {{#if t}}\n  hello\n    {{~/if}}\nend
+    for ind in ('    ', '\t'):
+        items = [_t('#if t', True), _x('\n  hello\n' + ind), _t('/if', True, True, False), _x('\nend')]
+        cases.append(rcase(f'lt{j5}', _src(items), {'t': True}, entry=0, kind='whole', s=' hello', exp=_exp(items), tags=['leading-tilde-indented']))
+        j5 += 1
     # a lone CR (not followed by LF) is ordinary text: it is never removed, also not directly after a tag that
     # stands at the start of a line
     for j2, (tpl, exp) in enumerate([('{{! note }}\rbody', '\rbody'), ('{{#if t}}\rx{{/if}}', '\rx'), ('{{{{raw}}}}\rz{{{{/raw}}}}', '\rz'),
